@@ -194,6 +194,28 @@ def check_prot(ck, prog, cfgd, rule):
                           "write" if w else "read", ex.show(m), f.name,
                           "mutex role " + str(need), why),
                       key=key)
+    # contradicting beliefs (Engler et al.): an unlocked read excused as "only this thread writes the member" cannot
+    # stand next to a store to the same member in a worker-thread function
+    wfns = set((cfgd.get("stop_ack") or {}).get("worker_fns", ()))
+    for x in cfgd["exceptions"]:
+        if x.get("kind") != "owner-read" or not wfns:
+            continue
+        for fld in sorted(x["fields"]):
+            wr = None
+            for wf in sorted(wfns):
+                g = prog.fn(wf, cfgd["file"])
+                for b, i, e in g.iter_elems():
+                    for m, w, rmw in lock.accesses(e):
+                        if w and m["f"] == fld and (not x.get("rec") or m.get("rec") == x["rec"]) and \
+                                (m.get("rec"), m["f"]) in prot:
+                            wr = (g, m)
+            nacc += 1
+            ck.ob(rule, "owner-read:%s:%s" % (x["fn"], fld), wr is None, common.where(*wr) if wr else cfgd["file"],
+                  "%s is read without its mutex in %s() on the ground that only that thread writes it; no worker function "
+                  "writes it" % (fld, x["fn"]) if wr is None else
+                  "%s() reads %s without its mutex because \"only the main thread modifies it\", but the worker function %s() "
+                  "stores to it (line %s): the unlocked read and that store are a data race" % (
+                      x["fn"], fld, wr[0].name, ex.line(wr[1])), key="PROT:owner-read:%s:%s" % (x["fn"], fld))
     return nacc
 
 
